@@ -82,8 +82,6 @@ func runC18(p *Program, r *Reporter) {
 // ---------------------------------------------------------------------------
 // shared helpers
 
-func c18IsFormValue(c CallSite) bool { return c.IsStatic("net/http", "Request", "FormValue") }
-
 // c18VarargElems returns the values stored into the variadic slice argument v
 // (a `slice t[:]` of a `new [N]any (varargs)` array).
 func c18VarargElems(v ssa.Value) []ssa.Value {
@@ -522,14 +520,21 @@ var c18Debug = os.Getenv("C18DEBUG") != ""
 // arguments and call results for the callee's returned values. Literals that
 // are go'd, deferred or passed on as values are attached as forks at the
 // instruction that spawns them. Blocks are cut into segments at the inlined
-// call sites; the segment after a call whose result is tested right away is
-// cloned per returning path of the callee, and a block that branches on (or
-// returns) one of its own phis is cloned per incoming edge, so that dominance
-// and the dominating facts carry across the call ("helper returned ok" =>
-// what dominated that return inside the helper). Dominators, facts, reach
-// and dependence are then computed on this graph exactly as on a single
-// function, which makes the rules indifferent to helper extraction, function
-// splitting, closure<->method conversion and inlining.
+// call sites; the continuation of a call whose result is tested (at the end of
+// the call's block or up to three blocks later) is cloned per returning path
+// of the callee as far as that test, and a block that branches on (or returns)
+// one of its own phis - or only forwards such phis - is cloned per incoming
+// edge; If edges that the bindings of a clone decide are pruned. Dominance and
+// the dominating facts therefore carry across the call ("helper returned ok"
+// => what dominated that return inside the helper); facts of an If that exists
+// in several clones are established by a cut argument (cloneFacts). Dominators,
+// facts, reach and dependence are then computed on this graph exactly as on a
+// single function, which makes the rules indifferent to helper extraction,
+// function splitting, closure<->method conversion and inlining.
+// Known limits: a helper result that is first stored in a struct field or
+// tested more than three blocks after the call is not correlated with the
+// helper's returns; state moved from locals into struct fields is not
+// followed by the phi-based rules (they report, they do not pass silently).
 
 const (
 	c18KRoot  = iota
@@ -595,7 +600,7 @@ type c18XB struct {
 	Lo, Hi int
 	Var    string
 	Bind   map[ssa.Value]c18XV // values of B with a known definition in this clone
-	Orig   *c18XB              // the node that supplied the newest binding
+	BindAt map[ssa.Value]*c18XB // per binding: the node that supplied it (predecessor / return node)
 	Succs  []*c18XB
 	Kinds  []int
 	IfSucc [2]*c18XB
@@ -686,12 +691,12 @@ func (x *c18X) addCtx(c *c18Ctx) {
 	x.ctxsOf[c.Fn] = append(x.ctxsOf[c.Fn], c)
 }
 
-func (x *c18X) node(ctx *c18Ctx, b *ssa.BasicBlock, lo int, variant string, bind map[ssa.Value]c18XV, orig *c18XB) *c18XB {
+func (x *c18X) node(ctx *c18Ctx, b *ssa.BasicBlock, lo int, variant string, bind map[ssa.Value]c18XV, at map[ssa.Value]*c18XB) *c18XB {
 	k := c18NodeKey{ctx, b, lo, variant}
 	if n := x.keyed[k]; n != nil {
 		return n
 	}
-	n := &c18XB{ID: len(x.Nodes), Ctx: ctx, B: b, Lo: lo, Hi: len(b.Instrs), Var: variant, Bind: bind, Orig: orig}
+	n := &c18XB{ID: len(x.Nodes), Ctx: ctx, B: b, Lo: lo, Hi: len(b.Instrs), Var: variant, Bind: bind, BindAt: at}
 	x.Nodes = append(x.Nodes, n)
 	x.keyed[k] = n
 	x.work = append(x.work, n)
@@ -819,11 +824,12 @@ func (x *c18X) entersAt(ctx *c18Ctx, in ssa.Instruction) (*ssa.Function, int) {
 	return nil, 0
 }
 
-// c18TestedRight: the block of call c ends in an If / Return whose operand is
-// a result of c (so cloning the continuation per returning path pays off).
-func c18TestedRight(c *ssa.Call) bool {
-	b := c.Block()
-	isRes := func(v ssa.Value) bool {
+var c18RetPartRE = regexp.MustCompile(`\|r[0-9]+`)
+
+// c18TestsValue: terminator t branches on / returns a value satisfying is
+// (directly, negated, or compared with a constant).
+func c18TestsValue(t ssa.Instruction, is func(ssa.Value) bool) bool {
+	shape := func(v ssa.Value) bool {
 		for i := 0; i < 3; i++ {
 			if u, ok := v.(*ssa.UnOp); ok && u.Op == token.NOT {
 				v = u.X
@@ -838,18 +844,49 @@ func c18TestedRight(c *ssa.Call) bool {
 				v = bo.Y
 			}
 		}
-		if v == ssa.Value(c) {
-			return true
-		}
-		ex, ok := v.(*ssa.Extract)
-		return ok && ex.Tuple == ssa.Value(c)
+		return is(v)
 	}
-	switch t := b.Instrs[len(b.Instrs)-1].(type) {
+	switch t := t.(type) {
 	case *ssa.If:
-		return isRes(t.Cond)
+		return shape(t.Cond)
 	case *ssa.Return:
 		for _, r := range t.Results {
-			if isRes(r) {
+			if shape(r) {
+				return true
+			}
+		}
+	}
+	return false
+}
+
+// c18ResultTestedFrom: value k is tested by the terminator of block s or of a
+// block at most three steps after it.
+func c18ResultTestedFrom(k ssa.Value, s *ssa.BasicBlock, depth int, seen map[*ssa.BasicBlock]bool) bool {
+	if seen[s] || depth > 3 || len(s.Instrs) == 0 {
+		return false
+	}
+	seen[s] = true
+	if c18TestsValue(s.Instrs[len(s.Instrs)-1], func(v ssa.Value) bool { return v == k }) {
+		return true
+	}
+	for _, n := range s.Succs {
+		if c18ResultTestedFrom(k, n, depth+1, seen) {
+			return true
+		}
+	}
+	return false
+}
+
+// c18TestedRight: a result of call c is tested by an If / Return at the end of
+// its block or a few blocks later (so cloning the continuation per returning
+// path pays off).
+func c18TestedRight(c *ssa.Call) bool {
+	if c18ResultTestedFrom(c, c.Block(), 0, map[*ssa.BasicBlock]bool{}) {
+		return true
+	}
+	if refs := c.Referrers(); refs != nil {
+		for _, r := range *refs {
+			if ex, ok := r.(*ssa.Extract); ok && c18ResultTestedFrom(ex, c.Block(), 0, map[*ssa.BasicBlock]bool{}) {
 				return true
 			}
 		}
@@ -947,7 +984,7 @@ func (x *c18X) process(n *c18XB) {
 		}
 		x.edge(n, entry, c18EFork)
 		if n.Hi < len(b.Instrs) {
-			x.edge(n, x.node(n.Ctx, b, n.Hi, n.Var, n.Bind, n.Orig), c18ENormal)
+			x.edge(n, x.node(n.Ctx, b, n.Hi, n.Var, n.Bind, n.BindAt), c18ENormal)
 		}
 		return
 	}
@@ -961,7 +998,29 @@ func (x *c18X) process(n *c18XB) {
 		}
 	default:
 		for i, s := range b.Succs {
-			variant, bind, orig := "", map[ssa.Value]c18XV(nil), (*c18XB)(nil)
+			variant := ""
+			var bind map[ssa.Value]c18XV
+			var at map[ssa.Value]*c18XB
+			// results of inlined calls that are tested a few blocks further on stay
+			// bound (the blocks in between are cloned per returning path as well)
+			for k, v := range n.Bind {
+				in, ok := k.(ssa.Instruction)
+				if !ok || in.Block() == s || !in.Block().Dominates(s) {
+					continue
+				}
+				if _, isPhi := k.(*ssa.Phi); isPhi {
+					continue
+				}
+				if c18ResultTestedFrom(k, s, 0, map[*ssa.BasicBlock]bool{}) {
+					if bind == nil {
+						bind, at = map[ssa.Value]c18XV{}, map[ssa.Value]*c18XB{}
+					}
+					bind[k], at[k] = v, n.BindAt[k]
+				}
+			}
+			if bind != nil {
+				variant = strings.Join(c18RetPartRE.FindAllString(n.Var, -1), "")
+			}
 			if c18OwnPhiTested(s, n.Ctx.Kind == c18KCall) {
 				// which incoming edge of s is this? (the i-th occurrence of b when
 				// both edges of an If lead to s)
@@ -976,19 +1035,20 @@ func (x *c18X) process(n *c18XB) {
 					occ++
 				}
 				if j >= 0 {
-					variant = "p" + strconv.Itoa(j) + "." + strconv.Itoa(n.ID)
-					bind = map[ssa.Value]c18XV{}
+					variant = "p" + strconv.Itoa(j) + "." + strconv.Itoa(n.ID) + variant
+					if bind == nil {
+						bind, at = map[ssa.Value]c18XV{}, map[ssa.Value]*c18XB{}
+					}
 					for _, in := range s.Instrs {
 						ph, ok := in.(*ssa.Phi)
 						if !ok {
 							break
 						}
-						bind[ph] = x.resolveRaw(n, ph.Edges[j])
+						bind[ph], at[ph] = x.resolveRaw(n, ph.Edges[j]), n
 					}
-					orig = n
 				}
 			}
-			m := x.node(n.Ctx, s, 0, variant, bind, orig)
+			m := x.node(n.Ctx, s, 0, variant, bind, at)
 			x.edge(n, m, c18ENormal)
 			if _, isIf := t.(*ssa.If); isIf && i < 2 {
 				n.IfSucc[i] = m
@@ -1026,12 +1086,12 @@ func (x *c18X) returnTo(n *c18XB, t *ssa.Return, call *c18XB) {
 		return
 	}
 	k := call.Hi // the continuation starts right after the call
-	variant, bind, orig := call.Var, call.Bind, call.Orig
+	variant, bind, at := call.Var, call.Bind, call.BindAt
 	if c18TestedRight(site) {
 		variant = call.Var + "|r" + strconv.Itoa(n.ID)
-		bind = map[ssa.Value]c18XV{}
+		bind, at = map[ssa.Value]c18XV{}, map[ssa.Value]*c18XB{}
 		for kk, vv := range call.Bind {
-			bind[kk] = vv
+			bind[kk], at[kk] = vv, call.BindAt[kk]
 		}
 		res := func(i int) c18XV {
 			if i >= len(t.Results) {
@@ -1040,17 +1100,16 @@ func (x *c18X) returnTo(n *c18XB, t *ssa.Return, call *c18XB) {
 			return x.resolveRaw(n, c18RetVal(t.Results[i], t))
 		}
 		if len(t.Results) == 1 {
-			bind[site] = res(0)
+			bind[site], at[site] = res(0), n
 		} else if refs := site.Referrers(); refs != nil {
 			for _, r := range *refs {
 				if ex, ok := r.(*ssa.Extract); ok {
-					bind[ex] = res(ex.Index)
+					bind[ex], at[ex] = res(ex.Index), n
 				}
 			}
 		}
-		orig = n
 	}
-	next := x.node(call.Ctx, call.B, k, variant, bind, orig)
+	next := x.node(call.Ctx, call.B, k, variant, bind, at)
 	x.edge(n, next, c18ERet)
 }
 
@@ -2049,9 +2108,11 @@ func (x *c18X) evalBound(n *c18XB, cond ssa.Value) (known, val bool) {
 			case isNonNilErrorExpr(other.V):
 				return true, c.Op == token.NEQ
 			}
-			if n.Orig != nil {
-				if k, isNil := x.NilFact(x.FactsAt(n.Orig), other); k {
-					return true, isNil == (c.Op == token.EQL)
+			for _, key := range []ssa.Value{c.X, c.Y} {
+				if o := n.BindAt[key]; o != nil {
+					if k, isNil := x.NilFact(x.FactsAt(o), other); k {
+						return true, isNil == (c.Op == token.EQL)
+					}
 				}
 			}
 			return false, false
@@ -2070,8 +2131,8 @@ func (x *c18X) evalBound(n *c18XB, cond ssa.Value) (known, val bool) {
 	if c, ok := r.V.(*ssa.Const); ok && c.Value != nil && c.Value.Kind() == constant.Bool {
 		return true, constant.BoolVal(c.Value)
 	}
-	if n.Orig != nil {
-		for _, f := range x.FactsAt(n.Orig) {
+	if o := n.BindAt[cond]; o != nil {
+		for _, f := range x.FactsAt(o) {
 			fc, fv := f.Cond, f.Val
 			for {
 				if u, ok := fc.(*ssa.UnOp); ok && u.Op == token.NOT {
@@ -2394,8 +2455,8 @@ func (x *c18X) PhiEdges(v c18XV) []c18PhiEdge {
 	var out []c18PhiEdge
 	blk := ph.Block()
 	for _, n := range x.nodesOf[c18XI{v.Ctx, ph}] {
-		if b, ok := n.Bind[ph]; ok && n.Orig != nil {
-			out = append(out, c18PhiEdge{b, n.Orig, n, x.EdgeFacts(n.Orig, n)})
+		if b, ok := n.Bind[ph]; ok && n.BindAt[ph] != nil {
+			out = append(out, c18PhiEdge{b, n.BindAt[ph], n, x.EdgeFacts(n.BindAt[ph], n)})
 			continue
 		}
 		for _, pn := range n.Preds {
